@@ -55,6 +55,7 @@ class Ctx:
         self.fp_refine = []       # exact definitions of abstract products
         self.refine_timeout_ms = 60000
         self.str_free = {}        # id of string var -> set of chars it lacks
+        self.sample_smt2 = None   # list -> keep SMT-LIB2 text of a few queries
         self.uf = {}
 
     # -- variables --------------------------------------------------------
@@ -133,6 +134,12 @@ class Ctx:
         self.stats[r] += 1
         self.stats['solver_s'] += dt
         self.query_log.append((label, r, round(dt, 4)))
+        if self.sample_smt2 is not None and len(self.sample_smt2) < 3 and \
+                r == 'unsat' and label and not label.startswith('twin'):
+            try:
+                self.sample_smt2.append((label, s.to_smt2()))
+            except Exception:    # noqa
+                pass
         m = s.model() if r == 'sat' else None
         return r, m
 
